@@ -39,6 +39,12 @@ CHECKS = {
     'C06': dict(tech='(A) TLA+ Assembly reduced system for every fixed subset vs one real step (binding A); (B) GraphSLAM!OptCall frame condition imposed on recorded optimizer runs of 1..20 iterations in every outcome class by Trace_GraphSLAM (binding B)',
                 text='GraphSLAM!OptCall states: the flags after the call are the flags before plus (fix_first_pose and first vertex), and a vertex fixed after the call has the same pose token as before, in every outcome. Recorded calls on fixtures with fixed subsets (none, one, several, all, fixed landmarks, isolated fixed vertex) incl. converged, iteration-limit, diverging and singular (NaN) runs are validated event by event with bitwise pose digests. For the reduced-problem clause TLC assembles the reduced normal equations of lattice graphs for each fixed subset and the real step of the free vertices must equal its exact solution - also when a fixed vertex has no incident edge.',
                 ref='4 C06', note='Digests are SHA-1 of float64 bytes; reduced system solved with Fractions; exact step from lattice states only (L2).'),
+    'C04': dict(tech='TLA+ Assembly reduced normal equations at several initial guesses (TLC), exact optimum x0+dx and chi2* by Fractions (identical across guesses), compared with the result of optimize() (binding A)',
+                text='For R^2/R^3 graphs every Jacobian is +-I, so the exact minimiser is x0 + dx with dx the exact solution of the reduced normal equations TLC assembles at the initial guess x0, and chi2* = chi2_0 + b.dx. The harness checks on the model outputs that x0+dx and chi2* are identical for three different initial guesses (incl. ~1e3 away) and that optimize() with default settings ends at that point and reports that chi^2, for trees, loops, multi-edges and point-to-point landmark edges with offsets, random fixed subsets, SPD information with cross terms and inconsistent measurements.',
+                ref='4 C04', note='Exact Fraction solve of the reduced system; graphs up to 10 vertices (TLC cost), the converged flag is not part of the property.'),
+    'C07': dict(tech='theorem T5 model-checked by TLC on every generated (graph, T) (errors/chi2 invariant, b and H equivariant under the block change of coordinates: identity on poses, R_T on points); code conformance at g and at T*g against that one exact step (binding A); two-run lock-step code-vs-code for k=1..5',
+                text='TLC left-composes every vertex of a lattice graph with a lattice rigid motion T inside the specification and checks exactly that all edge errors and chi^2 forms are unchanged and that gradient and Hessian are those of the original graph up to the rotation of point-vertex coordinates; the real optimizer step at g and at T*g (vertices built from the exact transformed poses) must both equal the exact step. Beyond the first step, optimize(tol=0,max_iter=k), k=1..5, on g and T*g (generic float T, |t| up to 1e6, rotations near 180 degrees) must stay in lock-step.',
+                ref='4 C07', note=L1 + ' Later iterates are compared code-vs-code (L2); T is applied to real graphs with the library (+) (decided by C09). Absolute (prior) custom edges are not frame-invariant and are excluded.'),
 }
 NA_REASON = 'check not built yet in this round (planned, see DESIGN.md section 4)'
 
